@@ -77,7 +77,12 @@ def generate(rng):
         if r < 0.45:
             steps.append({'say': gen_say(rng), 'dt': dt})
         else:
-            steps.append({'ask': rng.choice(toks), 'dt': dt})
+            st_ = {'ask': rng.choice(toks), 'dt': dt}
+            if rng.random() < 0.2:
+                # the prompt comes out in two pieces with a pause inside it (shorter or longer than the timeout): a TIMEOUT
+                # tick in between must leave the first half where the rest of the occurrence can still join it
+                st_['split'] = [rng.randint(1, 2), int(scn['timeout'] * 1e6 * rng.choice([0.3, 1.5, 1.5, 3.2]))]
+            steps.append(st_)
     if rng.random() < 0.2:
         steps.append({'silence': rng.choice([100000, 1000000, 5000000])})
     scn['steps'] = steps
@@ -148,7 +153,13 @@ def run(scn):
                     continue
                 tok = st['ask']
                 try:
-                    yield ('write', slave, tok.encode('latin-1'))
+                    if st.get('split'):
+                        kcut, pause = st['split']
+                        yield ('write', slave, tok[:kcut].encode('latin-1'))
+                        yield ('sleep', int(pause))
+                        yield ('write', slave, tok[kcut:].encode('latin-1'))
+                    else:
+                        yield ('write', slave, tok.encode('latin-1'))
                 except OSError:
                     return
                 win = first_winner(tok)
